@@ -32,7 +32,9 @@ def generate(r):
     lines.append("import std.io.fs:{readFile, writeFile};")
     lines.append("let M = {};")
     lines.append("fn churn(k) { let n = 0; for i in k.times() { let s = 'c${i}' + 'z'; n += s.len(); } n }")
+    lines.append("fn rep(s, n) { let out = ''; for i in n.times() { out = out + s; } out }")
     header = len(lines)
+    longs = []
     module_texts = []
     file_texts = []
     counter = [0]
@@ -55,11 +57,22 @@ def generate(r):
 
     new_slot(lit("seed_text"), "seed_text")
     for _ in range(r.randint(10, 45)):
-        act = r.choice(["lit", "concat", "interp", "slice", "index", "split", "chars", "num", "same", "same", "drop", "drop",
+        act = r.choice(["long", "lit", "concat", "interp", "slice", "index", "split", "chars", "num", "same", "same", "drop", "drop",
                         "eq", "eq", "eq", "mset", "mget", "mget", "churn", "lhas", "gc", "gc", "module", "file", "lindex",
                         "mremove", "order"])
         lv = live()
-        if act == "lit":
+        if act == "long" and len(longs) < 3:
+            # strings of several thousand characters, created twice by separate loops (and once more by doubling)
+            if longs and r.random() < 0.6:
+                piece, count = r.choice(longs)
+            else:
+                piece, count = "".join(r.choice("abcxyz") for _ in range(r.randint(3, 6))), r.randint(700, 1500)
+            longs.append((piece, count))
+            if count % 2 == 0 and r.random() < 0.4:
+                new_slot("rep(rep(%s, %d), 2)" % (lit(piece), count // 2), piece * count)
+            else:
+                new_slot("rep(%s, %d)" % (lit(piece), count), piece * count)
+        elif act == "lit":
             t = text()
             new_slot(lit(t), t)
         elif act == "same":
